@@ -9,12 +9,13 @@ CONSTANT WIDE
 
 Dom    == IF WIDE THEN {0, 1, 2, 3} ELSE {0, 1, 2}       \* set elements
 Small  == IF WIDE THEN {0, 1, 2} ELSE {0, 1}
-One    == IF WIDE THEN {0, 1} ELSE {0}
+One    == {0}
 Keys   == {1, 2}
+Keys3  == IF WIDE THEN {1, 2, 3} ELSE {1, 2}
 Num    == {0, 1, 255}                                      \* u8 with MIN and MAX
-Num2   == IF WIDE THEN {0, 1, 2} ELSE {0, 1}
+Num2   == {0, 1}
 Num3   == {0, 1, 2}
-UfIt   == {0, 1, 2}
+UfIt   == IF WIDE THEN {0, 1, 2, 3} ELSE {0, 1, 2}
 
 Catalogue ==
     [ set          |-> TSet(Dom),
@@ -26,11 +27,11 @@ Catalogue ==
       point        |-> TPoint(Small),
       conflict     |-> TConflict(Dom),
       map_set      |-> TMap(Keys, TSet(Small)),
-      map_max      |-> TMap(Keys, TMax(Num)),
+      map_max      |-> TMap(Keys3, TMax(Num)),
       map_map_set  |-> TMap(Keys, TMap({1}, TSet(One))),
       map_wb_max   |-> TMap(Keys, TWithBot(TMax(Num2))),
       map_wt_set   |-> TMap(Keys, TWithTop(TSet(One))),
-      map_conflict |-> TMap(Keys, TConflict(Small)),
+      map_conflict |-> TMap(Keys, TConflict({0, 1})),
       map_pair     |-> TMap(Keys, TPair(TSet(One), TMax(Num2))),
       map_vec      |-> TMap(Keys, TVec(TMax(Num2), 1)),
       wb_set       |-> TWithBot(TSet(Small)),
